@@ -220,6 +220,21 @@ def lfilterPy (b a x : List K) : List K := (lfRun b a x x.length).reverse
 
 end
 
+section
+variable {K : Type} [Add K] [Mul K] [Div K] [OfNat K 0] [OfNat K 1] [DecidableEq K]
+
+/-- `Sequence.extent`: span from the first to the last non-zero element -/
+def extent (x : List K) : Nat :=
+  (x.dropWhile (fun c => c = 0)).length - (x.reverse.takeWhile (fun c => c = 0)).length
+
+/-- `Sequence.convolve(h)` (mode 'full'): zero-pad x by `extent h - 1` and FIR-filter with the value
+    list of h -/
+def convolvePy (x h : List K) : List K :=
+  if x.isEmpty ∨ h.isEmpty then [] else
+  lfilterPy h [1] (x ++ List.replicate (extent h - 1) 0)
+
+end
+
 /-! ### DFT closed forms (`dft.py: termXq` with lower = 0, upper = N-1, then `q**N -> 1`) -/
 section
 variable {K : Type} [Add K] [Mul K] [Neg K] [Sub K] [Div K] [OfNat K 0] [OfNat K 1] [DecidableEq K]
@@ -264,8 +279,12 @@ def dftTerm (numeric : Bool) (t : CTerm K) (N : Nat) (q : K) : Option K :=
       else dftGeoGeneral t.p l N (t.a * q) (powK t.a N)
     v.map (fun v => t.coef * v)
 
-def dftSig (numeric : Bool) (ts : List (CTerm K)) (N : Nat) (q : K) : Option K :=
-  ts.foldr (fun t acc => do let a ← dftTerm numeric t N q; let b ← acc; some (a + b)) (some 0)
+def dftSig (numeric : Bool) : List (CTerm K) → Nat → K → Option K
+  | [], _, _ => some 0
+  | t :: ts, N, q =>
+    match dftTerm numeric t N q, dftSig numeric ts N q with
+    | some a, some b => some (a + b)
+    | _, _ => none
 
 end
 
